@@ -250,7 +250,7 @@ def wrappers(ck):
 
 
 def run(ck):
-    ck.prove(["AsModel.Theorems.C06"])
+    ck.prove(["AsModel.Theorems.C06", "AsModel.Theorems.C06Report"])
     ck.build_harness("rt")
     renderer_contract(ck)
     display_matrix(ck)
